@@ -20,8 +20,8 @@ ROOT = os.path.dirname(HERE)
 sys.path.insert(0, HERE)
 import weave  # noqa: E402
 
-OUT = os.path.join(ROOT, "out")
-EVID = os.path.join(ROOT, "evidence")
+OUT = os.environ.get("VERIF_OUT") or os.path.join(ROOT, "out")
+EVID = os.environ.get("VERIF_EVID") or os.path.join(ROOT, "evidence")
 VERUS = os.environ.get("VERUS", "verus")
 VERUS_FLAGS = ["--cfg", 'feature="bignum"', "--cfg", 'feature="value"', "--cfg", 'feature="convert"', "--cfg", 'feature="serde"',
                "--multiple-errors", "20", "--triggers-mode", "silent", "--rlimit", "60"]
